@@ -210,7 +210,7 @@ PROPS = {
         "gen_facts": [],
     },
     "C12": {
-        "level_text": "FULL on evaluation: match_spec (any-of within status/author/actor/participant/metadata, all-of for labels, titles and "
+        "level_text": "Round trip proved: every structured query written through the documented grammar (values in double quotes, one space between tokens; values holding anything but the double quote) parses back to exactly that query (parse_render, over the lexer quote automaton: Lemmas.Lexer split_fields, token_kv/kvv/search, tokenize_rendered). FULL on evaluation: match_spec (any-of within status/author/actor/participant/metadata, all-of for labels, titles and "
                       "across kinds, no:label), identity_match_ci, query_result/query_exact (the result is exactly the matching excerpts, each "
                       "once, sorted by the requested key and direction; the three comparators are strict weak orders) for unbounded "
                       "populations. Parser: total by construction (the model has no partial operation; the Go code's slices are guarded), "
@@ -224,7 +224,7 @@ PROPS = {
         "required_theorems": ["match_spec", "identity_match_ci", "sortBy_perm", "sortBy_sorted", "less_weak", "query_result", "query_exact",
                               "parse_rejects_two_sorts", "parse_rejects_unknown_qualifier", "parse_rejects_unknown_status",
                               "parse_rejects_unknown_sort", "parse_rejects_unknown_no", "parse_label", "parse_metadata", "parse_search",
-                              "split_unmatched", "field_edge_colon"],
+                              "split_unmatched", "field_edge_colon", "parse_render", "tokenize_rendered"],
         "slices": ["C12"],
         "rule": "raw strings of 0..9 pieces over an alphabet of qualifiers, values, colons, spaces, tabs, both quotes and unicode (never "
                 "panics; same query or same error class as the model); structured queries rendered through the grammar of doc/queries.md "
